@@ -22,6 +22,13 @@ def mc_stage(module, cfg, quick=None, thorough=None, workers=NCPU, timeout=3000,
     return stage
 
 
+def thorough_only(stage):
+    def st(ctx):
+        if ctx.thorough:
+            stage(ctx)
+    return st
+
+
 def scan_trace(path, ctx):
     """cheap statistics + samples from an ndjson trace"""
     kinds = {}
@@ -56,17 +63,40 @@ CHECK_DEADLOCK FALSE
 """
 
 
-def trace_files_stage(ctx, driver, prefix, nfiles, module="Trace_Balloon", cfg=None, extra_args=None):
+def driver_crash(ctx, p, args):
+    """A driver that hosts real nodes died: if QED code panicked, that is real behaviour, not infrastructure."""
+    err = (p.stderr or "") + (p.stdout or "")
+    if ("panic:" in err or "fatal error:" in err or "SIGABRT" in err or "Assertion" in err) and ("github.com/bbva/qed/" in err or "rocksdb" in err.lower()):
+        lines = [x for x in err.splitlines() if x.startswith("panic:") or "fatal error" in x or "Assertion" in x]
+        first = (lines[0] if lines else err.splitlines()[0])[:300]
+        dump = os.path.join(ctx.work, "crash_%d.txt" % len(ctx.replay_files))
+        with open(dump, "w") as f:
+            f.write(" ".join(args) + "\n" + err[-20000:])
+        ctx.replay_files.append(dump)
+        ctx.violation(ctx.pid, "process hosting the node(s) crashed: " + first, dump)
+        return True
+    return False
+
+
+def trace_files_stage(ctx, driver, prefix, nfiles, module="Trace_Balloon", cfg=None, extra_args=None, spec="Spec", subdir=None):
     """run `drv <driver>` nfiles times in parallel, validate every trace with TLC, collect VIOL tags"""
     cfg = cfg or BALLOON_CFG
-    outdir = os.path.join(ctx.work, prefix)
+    outdir = os.path.join(ctx.work, subdir or prefix)
     os.makedirs(outdir, exist_ok=True)
     ctx.build_drv()
 
     def gen(fi):
-        return ctx.run_drv([driver, "-out", outdir, "-fi", str(fi), "-files", "1", "-tier", ctx.tier,
-                            "-seed", str(ctx.seed)] + (extra_args or []), timeout=3000)
-    for p in par_map(gen, range(nfiles)):
+        a = [driver, "-out", outdir, "-fi", str(fi), "-files", "1", "-tier", ctx.tier, "-seed", str(ctx.seed)] + (extra_args or [])
+        p = ctx.run_drv(a, timeout=3000, check=False)
+        p.args_ = a
+        return p
+    crashed = 0
+    for p in par_map(gen, range(nfiles), workers=ctx.drv_par):
+        if p.returncode != 0:
+            if driver_crash(ctx, p, p.args_):
+                crashed += 1
+                continue
+            raise Infra("driver %s failed (rc=%d): %s" % (driver, p.returncode, (p.stderr or p.stdout)[-3000:]))
         try:
             st = json.loads(p.stdout.strip().splitlines()[-1])
             for k, v in st.items():
@@ -74,13 +104,16 @@ def trace_files_stage(ctx, driver, prefix, nfiles, module="Trace_Balloon", cfg=N
         except Exception:
             pass
     files = sorted(glob.glob(os.path.join(outdir, prefix + "_*[0-9].ndjson")))
+    if crashed:
+        # traces of crashed runs are incomplete: the crash itself is the finding
+        return
     if len(files) != nfiles:
         raise Infra("%s driver produced %d of %d traces" % (driver, len(files), nfiles))
 
     def validate(path):
         defs = path.replace(".ndjson", ".defs.ndjson")
         tag = "tv_" + os.path.basename(path).split(".")[0]
-        r = ctx.tlc(module, cfg % {"trace": path, "defs": defs}, tag, workers=1, timeout=ctx.pick(1500, 5400))
+        r = ctx.tlc(module, (cfg % {"trace": path, "defs": defs}).replace("SPECIFICATION Spec", "SPECIFICATION " + spec), tag, workers=1, timeout=ctx.pick(1500, 5400))
         return path, r
     t1 = time.time()
     results = par_map(validate, files)
@@ -99,17 +132,31 @@ def trace_files_stage(ctx, driver, prefix, nfiles, module="Trace_Balloon", cfg=N
         if viol is None or r.get("depth") not in (n, n + 1):
             tail = "\n".join(r["out"].splitlines()[-25:])
             raise Infra("trace %s not fully consumed by %s (depth %s of %d)\n%s" % (path, module, r.get("depth"), n, tail))
-        for shadow, prop, line, what in viol:
+        for also, prop, line, what in viol:
             where = "%s:%d" % (path, line)
             if prop.startswith("D"):
-                if not shadow:
+                if not also:
                     ctx.diagnostic(prop + " " + what, where)
-            elif shadow:
-                ctx.violation("C08", "after reopen: " + what, where)
-            else:
+                continue
+            if not also:
                 ctx.violation(prop, what, where)
+            for a in also:
+                ctx.violation(a, {"C08": "after reopen/restart: ", "C09": "after state transfer: ", "C10": "during an insertion: ",
+                                  "C06": "on a replica: "}.get(a, "") + what, where)
     ctx.count("distinct_nontrivial", len(distinct))
     ctx.count("evaluations", ctx.tv["events"])
+
+
+CLUSTER_CFG = BALLOON_CFG.replace("VIEW View", "VIEW CView")
+
+
+def cluster_tv(scenario, quick_files, thorough_files):
+    def stage(ctx):
+        ctx.drv_par = 4      # real clusters: keep raft timeouts meaningful
+        trace_files_stage(ctx, "cluster", "cluster", ctx.pick(quick_files, thorough_files), module="Trace_Cluster",
+                          cfg=CLUSTER_CFG, extra_args=["-scenario", scenario], spec="CSpec", subdir="cluster_" + scenario)
+        ctx.drv_par = None
+    return stage
 
 
 def adversary_tv_stage(ctx):
@@ -227,6 +274,42 @@ RULE_ADV = ("MC: 8-bit universe (7 keys, prefixes 0..7 bits), every insertion se
             "recombination, wrong snapshots, 2^63 magnitudes), decoded by the real JSON decoder and verified by the real verifier in a "
             "guarded goroutine with a deadline; distinct = (kind, versions); non-trivial = altered answers")
 
+MCC_CFG = """SPECIFICATION Spec
+CONSTANTS
+  Nodes = {@Nodes@}
+  Events = {e1, e2}
+  MaxLog = @MaxLog@
+  MaxBulk = 2
+  MaxCrashes = @MaxCrashes@
+  MaxSnapshots = 1
+  MaxBackups = @MaxBackups@
+  RebuildCacheOnRestore = TRUE
+  QueryExcludesApply = TRUE
+  BackupExcludesApply = TRUE
+INVARIANT DurableIsPrefix
+INVARIANT AckedDense
+INVARIANT VersionCounter
+INVARIANT ReplicasAgree
+INVARIANT NoVersionPanic
+INVARIANT CacheCoherent
+INVARIANT QueryConsistent
+INVARIANT BackupExact
+PROPERTY AppendOnly
+VIEW View
+SYMMETRY Symm
+CHECK_DEADLOCK FALSE
+"""
+mc_cluster = mc_stage("MC_Cluster", MCC_CFG,
+                      quick={"Nodes": "n1, n2", "MaxLog": 3, "MaxCrashes": 1, "MaxBackups": 1},
+                      thorough={"Nodes": "n1, n2, n3", "MaxLog": 2, "MaxCrashes": 1, "MaxBackups": 0}, timeout=7000)
+
+RULE_CLUSTER = ("MC: Cluster.tla (committed log, per-node durable store / volatile caches / raft applied index, "
+                "ApplyCompute and ApplyPersist as separate steps, Crash at any point, Restart with replay filter, raft snapshot + compaction, "
+                "InstallSnapshot from WAL batches, Backup, Query) exhaustively for the stated constants with VIEW hiding observation variables. "
+                "TV: real 3-node clusters (real raft over loopback, RocksDB behind the gated store, symbolic hasher): every store write "
+                "(fsm index, version metadata, inserted leaves), acknowledgement, restart, state transfer, store dump and every proof served "
+                "by every replica is validated by TLC; distinct = (event kind, node, versions)")
+
 PLANS = {
     "C01": plan("model_checking", [mc_history, balloon_tv_stage], RULE_BALLOON),
     "C02": plan("model_checking", [mc_balloon, adversary_tv_stage], RULE_ADV),
@@ -234,6 +317,9 @@ PLANS = {
     "C04": plan("model_checking", [mc_history, balloon_tv_stage], RULE_BALLOON),
     "C14": plan("model_checking", [mc_store, store_tv_stage], RULE_STORE),
     "C15": plan("model_checking", [mc_logstore, logstore_tv_stage], RULE_LOGSTORE),
+    "C05": plan("model_checking", [mc_cluster, cluster_tv("replicas", 6, 12), thorough_only(balloon_tv_stage)], RULE_CLUSTER),
+    "C06": plan("model_checking", [mc_cluster, cluster_tv("replicas", 6, 16)], RULE_CLUSTER),
+    "C09": plan("model_checking", [mc_cluster, cluster_tv("restore", 4, 16)], RULE_CLUSTER),
     "C12": plan("model_checking", [mc_balloon, adversary_tv_stage], RULE_ADV),
 }
 
